@@ -262,6 +262,11 @@ def gossip_family(chk, mc_inv, mc_props, trace_inv, require_ops=(), module="Goss
     v, st = run_schedules(chk, sched, "walks", sched["nodes"], invariants=trace_inv, module=tmodule)
     account(st)
     chk.notes["walk_signatures"] = {"f2": v.f2, "f4": v.f4}
+    # the same walks from nodes that do not know each other: they join over the stream and first hear of the
+    # others through a third node
+    sched2 = dict(sched, initKnown=False, walks=max(20, walks // 5))
+    v, st = run_schedules(chk, sched2, "walks-join", sched2["nodes"], invariants=trace_inv, module=tmodule)
+    account(st)
     chk.notes["executed_calls_by_action"] = ops
     missing = [o for o in require_ops if ops.get(o, 0) == 0]
     if missing:
